@@ -282,15 +282,19 @@ pub fn run(ctx: &mut RunCtx) {
     p.w_index = 1;
     p.nested_values = false;
     let mut pa = Profile::base();
-    pa.ops = 1..4;
+    pa.ops = 1..6;
     pa.ws = 1..5;
+    // compactions and reopens after the failed operation as well (a failed compaction followed
+    // by a commit and a successful compaction is a history of its own)
+    pa.w_compact = 3;
+    pa.w_reopen = 1;
     pa.nested_values = false;
     let cases = ctx.tier.pick(12_000, 160_000);
     ctx.shrink_iters = 200;
     let skip_post_commit = ctx.excluding("fault-after-log-commit");
     ctx.explore(
         "single-faults",
-        "generated prefix history, one target operation (commit of a generated transaction / compaction / close), EVERY I/O step of the target failed in turn (one fault per run), then generated later transactions and a reopen; oracle: error => invisible in-process; after reopen entirely-or-not-at-all plus all later transactions; later transactions must succeed; non-trivial = the fault was hit and >=1 later transaction committed",
+        "generated prefix history, one target operation (commit of a generated transaction / compaction / close), EVERY I/O step of the target failed in turn (one fault per run), then generated later transactions, compactions and reopens, and a final reopen; oracle: error => invisible in-process; after reopen entirely-or-not-at-all plus all later transactions; later transactions must succeed; non-trivial = the fault was hit and >=1 later transaction committed",
         cases,
         || {
             let target = prop_oneof![
